@@ -10,12 +10,14 @@ Copied from /repo (lib/preprocessor.cpp, lib/cppcheck.cpp, lib/settings.h, cli/c
   composition of `currentConfig`).
 
 The model copies what the code does, including
-  * F15: at `#else` the `configs_if` entry is popped and something is pushed again only when the
-    `#ifndef` candidate is not yet in `ret`; the matching `#endif` pops once more (pops on an empty
-    vector are ignored by the code);
   * F16: `#if !defined(X)` pushes the entry `X` on `configs_if` (only `cmdtok->str() == "ifndef"`
     fills `configs_ifndef`).
-`Flags` switch on the two candidate repairs; `Flags.code` (both off) is the code as it is.
+`Flags.code` (`fixElse` on) is the fold as it is since /repo commit 4aed040: at `#else` the `configs_if`
+entry is popped and either the `#ifndef` candidate or an empty entry is pushed, so that the vector keeps
+one entry per open conditional.  `Flags.old` (both off) is the fold before that commit (F15: nothing was
+pushed unless the candidate was new, the matching `#endif` then popped the enclosing level); it is kept
+only for the counterexample theorem and so that a regression to it is recognised.  `fixNotDef` is a
+repair of F16 that is modelled but not in the code.
 
 Strings are `List Char` with codes < 256.  No Mathlib, executable definitions only.
 -/
@@ -133,13 +135,14 @@ structure Inp where
   userDefines : Str := []
   undefs : List Str := []
 
-/-- candidate repairs (both off = the code) -/
+/-- variants of the fold: `fixElse` = commit 4aed040 (in the code), `fixNotDef` = modelled repair of F16 (not in the code) -/
 structure Flags where
   fixElse : Bool := false
   fixNotDef : Bool := false
   deriving DecidableEq, Repr
 
-def Flags.code : Flags := {}
+def Flags.code : Flags := { fixElse := true }
+def Flags.old : Flags := {}
 def Flags.repaired : Flags := { fixElse := true, fixNotDef := true }
 
 structure St where
@@ -349,7 +352,7 @@ def noDropElse : Items → Bool
   | .cond _ _ t rest => noDropElse t && noDropElse rest
   | .condElse k _ t e rest => k == .ifndef && noDropElse t && noDropElse e && noDropElse rest
 
-/-- a syntactic class inside `safe Flags.code`: `#if !defined` conditionals contain regions only, and an
+/-- a syntactic class inside `safe Flags.old`: `#if !defined` conditionals contain regions only, and an
     `#else` of `#ifdef` / `#if defined` / `#if !defined` occurs only on top-level conditionals -/
 def simpleElse : Items → Bool
   | .done => true
